@@ -819,6 +819,108 @@ Section Rules.
     Qed.
   End Merge.
 
+  (** the same for the validator with the checked-pairs memo (rule_fields_m: what ParseAndValidate
+      runs since 92e8fdd and what the composed pipeline of C03 uses) *)
+  Lemma first_err_m_ext {A} (f g : A -> memo -> mres * memo) l :
+    (forall x mm, In x l -> f x mm = g x mm) -> forall mm, first_err_m f l mm = first_err_m g l mm.
+  Proof.
+    induction l as [|x r IH]; intros H mm; [reflexivity|]. cbn [first_err_m].
+    rewrite (H x mm (or_introl eq_refl)). destruct (g x mm) as [[| | |] mm']; try reflexivity.
+    apply IH. intros y mm0 Hy. apply H. right; exact Hy.
+  Qed.
+
+  Lemma pairs_first_m_ext {A} (f g : A -> A -> memo -> mres * memo) l :
+    (forall x y mm, In x l -> In y l -> f x y mm = g x y mm) -> forall mm, pairs_first_m f l mm = pairs_first_m g l mm.
+  Proof.
+    induction l as [|x r IH]; intros H mm; [reflexivity|]. cbn [pairs_first_m].
+    rewrite (first_err_m_ext (f x) (g x) r) by (intros y mm0 Hy; apply H; [left; reflexivity | right; exact Hy]).
+    destruct (first_err_m (g x) r mm) as [[| | |] mm']; try reflexivity.
+    apply IH. intros a b mm0 Ha Hb. apply H; right; assumption.
+  Qed.
+
+  Section MergeMemo.
+    Variable q : quirks.
+    Variable A : document.
+    Hypothesis HA : frags_ok A.
+
+    Lemma same_shape_m_erase depth : forall X Y mm, oksel X -> oksel Y ->
+      same_shape_m q pi E A depth X Y mm = same_shape_m q pi S A depth X Y mm.
+    Proof.
+      induction depth as [|d IH]; intros X Y mm HX HY; [reflexivity|]. cbn [same_shape_m].
+      destruct (already (snd mm) X Y) as [seen ss']. destruct seen; [reflexivity|].
+      destruct (shape_type X) as [tA | eA] eqn:SX; [|reflexivity].
+      destruct (shape_type Y) as [tB | eB] eqn:SY; [|reflexivity].
+      destruct (shape_loop tA tB) as [[a b] | k] eqn:SL; [|reflexivity].
+      destruct (shape_loop_names _ _ _ _ SL) as [Na Nb].
+      rewrite (is_leaf_sty_erase a) by (intros n En; rewrite (Na n En); apply (shape_type_names X tA HX SX)).
+      rewrite (is_leaf_sty_erase b) by (intros n En; rewrite (Nb n En); apply (shape_type_names Y tB HY SY)).
+      destruct (is_leaf_sty S a || is_leaf_sty S b); [reflexivity|].
+      destruct (add_selections q A [] (sel_sub X)) as [m1 v1 | e1 |] eqn:A1; try reflexivity.
+      destruct (add_selections q A m1 (sel_sub Y)) as [m2 v2 | e2 |] eqn:A2; try reflexivity.
+      pose proof (add_selections_ok q A [] (sel_sub X) m1 v1 HA fmap_ok_nil (fun ss Es => oksel_sub X ss HX Es) A1) as M1.
+      pose proof (add_selections_ok q A m1 (sel_sub Y) m2 v2 HA M1 (fun ss Es => oksel_sub Y ss HY Es) A2) as M2.
+      apply first_err_m_ext. intros [k l] mm0 Hg. apply pi_In in Hg. cbn [snd].
+      pose proof (M2 k l Hg) as Hl. rewrite Forall_forall in Hl.
+      apply pairs_first_m_ext. intros x y mm1 Hx Hy. apply IH; [apply (Hl x Hx) | apply (Hl y Hy)].
+    Qed.
+
+    Lemma pair_check_m_erase (r1 r2 : fmap -> memo -> mres * memo) depth x y mm :
+      (forall m mm0, fmap_ok m -> r1 m mm0 = r2 m mm0) -> fp_ok x -> fp_ok y ->
+      pair_check_m q pi E A r1 depth x y mm = pair_check_m q pi S A r2 depth x y mm.
+    Proof.
+      intros Hr [Hx Vx] [Hy Vy]. unfold pair_check_m. cbv zeta.
+      destruct (already (fst mm) (fst3 x) (fst3 y)) as [seen cm']. destruct seen; [reflexivity|].
+      rewrite (same_shape_m_erase depth _ _ _ Hx Hy).
+      destruct (same_shape_m q pi S A depth (fst3 x) (fst3 y) (cm', snd mm)) as [[| | |] mm2]; try reflexivity.
+      destruct (snd (fst x)) as [pa|]; [|reflexivity]. destruct (snd (fst y)) as [pb|]; [|reflexivity].
+      rewrite (is_object_name_erase pa (or_introl Vx)), (is_object_name_erase pb (or_introl Vy)).
+      destruct (name_eqb pa pb || negb (is_object_name S pa) || negb (is_object_name S pb)); [|reflexivity].
+      destruct (negb (name_eqb (sel_name (fst3 x)) (sel_name (fst3 y)))); [reflexivity|].
+      destruct (args_check q (fst3 x) (fst3 y)); try reflexivity.
+      destruct (add_selections q A [] (sel_sub (fst3 x))) as [m1 v1 | e1 |] eqn:A1; try reflexivity.
+      destruct (add_selections q A m1 (sel_sub (fst3 y))) as [m2 v2 | e2 |] eqn:A2; try reflexivity.
+      apply Hr.
+      pose proof (add_selections_ok q A [] (sel_sub (fst3 x)) m1 v1 HA fmap_ok_nil (fun ss Es => oksel_sub _ ss Hx Es) A1) as M1.
+      apply (add_selections_ok q A m1 (sel_sub (fst3 y)) m2 v2 HA M1 (fun ss Es => oksel_sub _ ss Hy Es) A2).
+    Qed.
+
+    Lemma can_merge_m_eq S0 depth m mm :
+      can_merge_m q pi S0 A depth m mm =
+      first_err_m (fun g => pairs_first_m
+                              (pair_check_m q pi S0 A (match depth with O => fun _ mm' => (MOk, mm') | Datatypes.S d => can_merge_m q pi S0 A d end) depth)
+                              (snd g)) (pi _ m) mm.
+    Proof. destruct depth; reflexivity. Qed.
+
+    Lemma can_merge_m_erase depth : forall m mm, fmap_ok m -> can_merge_m q pi E A depth m mm = can_merge_m q pi S A depth m mm.
+    Proof.
+      induction depth as [|d IH]; intros m mm Hm; rewrite (can_merge_m_eq E), (can_merge_m_eq S);
+        apply first_err_m_ext; intros [k l] mm0 Hg; apply pi_In in Hg; cbn [snd];
+        pose proof (Hm k l Hg) as Hl; rewrite Forall_forall in Hl;
+        apply pairs_first_m_ext; intros x y mm1 Hx Hy; apply pair_check_m_erase; auto.
+    Qed.
+
+    Lemma merge_enter_m_erase st n : wa_node' n -> merge_enter_m q pi E A st n = merge_enter_m q pi S A st n.
+    Proof.
+      intros [_ Hn]. destruct n; try reflexivity. unfold merge_enter_m.
+      destruct (add_selections q A [] (Some s)) as [m v | e |] eqn:A1; try reflexivity.
+      rewrite can_merge_m_erase; [reflexivity|].
+      apply (add_selections_ok q A [] (Some s) m v HA fmap_ok_nil (fun ss Es => match Es in (_ = y) return (match y with Some z => oks z | None => True end) with eq_refl => Hn end) A1).
+    Qed.
+  End MergeMemo.
+
+  Theorem rule_fields_m_erase q A : ok (tree_doc A) -> rule_fields_m q pi E G A = rule_fields_m q pi S F A.
+  Proof.
+    intro HA. unfold rule_fields_m. cbv zeta.
+    destruct (inspect_ext_inv stack_ok wa_node (fields_enter E G) (fields_enter S F) pop
+                fields_enter_erase fields_enter_stack pop_stack (tree_doc A) HA rst0) as [E1 _]; [constructor|].
+    rewrite E1.
+    destruct (inspect_ext_inv (fun _ => True) wa_node' (merge_enter_m q pi E A) (merge_enter_m q pi S A) (fun s => s)
+                (fun st n _ Hn => merge_enter_m_erase q A (frags_ok_doc A HA) st n Hn) (fun _ _ _ _ => I) (fun _ _ => I)
+                (tree_doc A) (ok_strengthen _ (closed_doc A) HA)
+                (inspect (fields_enter S F) pop (tree_doc A) rst0, memo0) I) as [E2 _].
+    rewrite E2. reflexivity.
+  Qed.
+
   Theorem rule_fields_erase q A : ok (tree_doc A) -> rule_fields q pi E G A = rule_fields q pi S F A.
   Proof.
     intro HA. unfold rule_fields. cbv zeta.
@@ -927,6 +1029,19 @@ Section Rules.
       reflexivity. }
     rewrite R. reflexivity.
   Qed.
+  Theorem validate_memo_eq D : validate_model_memo q0 pi E G D = validate_model_memo q0 pi S F D.
+  Proof.
+    unfold validate_model_memo. rewrite (type_info_erase S F G Hok HFG).
+    destruct (type_info (q_unwrap_obj q0) S F D) as [A|] eqn:TI; [|reflexivity].
+    pose proof (type_info_nodes_ok (q_unwrap_obj q0) D A TI) as HA.
+    assert (R : all_rules_m q0 pi E G A = all_rules_m q0 pi S F A).
+    { unfold all_rules_m, rule_fragments.
+      destruct (rules_small_erase S F G Hok HFG q0 pi A) as [R1 [R2 R3]].
+      rewrite (rule_fields_m_erase q0 A HA), R2, R1, (rule_spreads_erase A HA), (rule_values_erase q0 A HA), R3,
+              (rule_variables_erase S F G Hok HFG (q_unwrap_obj q0) pi D A TI).
+      reflexivity. }
+    rewrite R. reflexivity.
+  Qed.
 End Rules.
 
 (** ** discharging [PT] *)
@@ -968,6 +1083,15 @@ Theorem validate_eq_repaired S F G pi q D :
 Proof.
   intros Hok HFG Hpi Hq.
   apply (validate_eq S F G Hok HFG pi Hpi q (possible_types_repaired S F G q Hok HFG Hq)).
+Qed.
+
+(** ... and of the validator with the checked-pairs memo (what ParseAndValidate runs) *)
+Theorem validate_memo_eq_repaired S F G pi q D :
+  vok S = true -> subset F G = true -> order_ok pi -> q_impl_features q = true ->
+  validate_model_memo q pi (verase S F) G D = validate_model_memo q pi S F D.
+Proof.
+  intros Hok HFG Hpi Hq.
+  apply (validate_memo_eq S F G Hok HFG pi Hpi q (possible_types_repaired S F G q Hok HFG Hq)).
 Qed.
 
 (** without the filter (the pinned getPossibleTypes, [q_impl_features] off) the equation holds exactly
